@@ -290,3 +290,22 @@ Proof.
   apply fs_backends_equal with (ops := ops); [exact C18_same_calls|apply C18_stacks_known|exact F].
 Qed.
 Print Assumptions C18_fs_backends_equal.
+
+(* non-vacuity in the dimension "several handles, operations while a handle is open": the hypothesis of
+   C18_fs_backends_equal holds for an interleaved sequence -- _open (handle 0), write, stat, _open (handle 1),
+   read, close (1), seek (0), write (0), unlink, close (0); the arguments (here: the handle slot) are arbitrary
+   data for `interp`.  The harness stream "api-steps" runs such sequences on the real PathIO and AsyncPathIO. *)
+Definition C18_op (k : nat) : list Z := nth k ops [].
+Definition C18_interleaved : list (list Z * sx * Z) :=
+  [(C18_op 8, I 0, 0); (C18_op 10, I 0, 0); (C18_op 7, I 0, 0); (C18_op 8, I 1, 0); (C18_op 11, I 1, 0);
+   (C18_op 12, I 1, 0); (C18_op 9, I 0, 0); (C18_op 10, I 0, 0); (C18_op 5, I 0, 0); (C18_op 12, I 0, 0)].
+Example C18_fs_backends_equal_interleaved_nonvacuous :
+  map (fun o : list Z * sx * Z => fst (fst o)) C18_interleaved
+   = [[95;111;112;101;110]; [119;114;105;116;101]; [115;116;97;116]; [95;111;112;101;110]; [114;101;97;100];
+      [99;108;111;115;101]; [115;101;101;107]; [119;114;105;116;101]; [117;110;108;105;110;107]; [99;108;111;115;101]]
+  /\ Forall (fun o : list Z * sx * Z => In (fst (fst o)) ops /\ quiet None (snd o)) C18_interleaved.
+Proof.
+  split; [vm_compute; reflexivity|].
+  repeat (apply Forall_cons; [split; [vm_compute; repeat (first [left; reflexivity | right])|exact Logic.I]|]).
+  apply Forall_nil.
+Qed.
